@@ -51,12 +51,37 @@ theorem typeBody_stop (env : Env) (F : Nat) (rec : Core) (operatorOk : Bool) (c 
     have h2 : Gen.parseTypePtrRefParen.contains c.type = true := by rw [h1, Bool.false_or] at hst; exact hst
     simp only [h1, h2, Bool.false_eq_true, ↓reduceIte, Option.isNone_some, bind, interp_bind, pure, interp]
 
+/-- on `;` the type loop stops (it is none of the tokens the loop knows) -/
+theorem typeBody_semi (env : Env) (F : Nat) (rec : Core) (operatorOk : Bool) (c : CTok) (pqn : Option PQName) (cst vol : Bool)
+    (mods : Mods) (o : Bool) (w : World) (hc : c.type = ";") :
+    interp env (typeBody F rec operatorOk (c, pqn, cst, vol, mods, o)) w = (w, .ok (.inr (c, pqn, cst, vol, mods, false))) := by
+  unfold typeBody
+  simp only [hc, (by decide : Gen.pqnameStartTokens.contains ";" = false), (by decide : Gen.parseTypePtrRefParen.contains ";" = false),
+    (by decide : Gen.typeKwdBoth.contains ";" = false), (by decide : Gen.typeKwdMeth.contains ";" = false),
+    (by decide : Gen.attributeStartTokens.contains ";" = false),
+    (by decide : (";" = "const") = False), (by decide : (";" = "mutable") = False), (by decide : (";" = "volatile") = False),
+    (by decide : (";" = "__inline") = False), (by decide : (";" = "__forceinline") = False),
+    Bool.false_eq_true, ↓reduceIte, decide_false, Bool.or_self, bind, interp_bind, pure, interp]
+
+/-- the tokens that end a type: a declarator start, or `;` -/
+def typeEnd (ty : String) : Bool := typeStop ty || ty == ";"
+
+theorem typeBody_end (env : Env) (F : Nat) (rec : Core) (operatorOk : Bool) (c : CTok) (pq : PQName) (cst vol : Bool)
+    (mods : Mods) (o : Bool) (w : World) (hst : typeEnd c.type = true) :
+    interp env (typeBody F rec operatorOk (c, some pq, cst, vol, mods, o)) w = (w, .ok (.inr (c, some pq, cst, vol, mods, false))) := by
+  unfold typeEnd at hst
+  cases h : typeStop c.type with
+  | true => exact typeBody_stop env F rec operatorOk c pq cst vol mods o w h
+  | false =>
+    rw [h, Bool.false_or] at hst
+    exact typeBody_semi env F rec operatorOk c (some pq) cst vol mods o w (by simpa using hst)
+
 theorem parseType_plain (env : Env) (F D : Nat) (operatorOk : Bool) (ct : CTok) (pairs : List (Tok × Tok))
     (w : World) (bmid b' : Buf) (term : Tok)
     (hty : ct.type = "NAME") (hpv : plainVal ct.value = true) (hnc : Gen.nameCompoundStart.contains ct.value = false)
     (hall : ∀ p ∈ pairs, p.1.type = "DBL_COLON" ∧ p.2.type = "NAME" ∧ plainVal p.2.value = true)
     (hy : Yields env.cfg w.buf (pairs.flatMap (fun p => [p.1, p.2])) bmid)
-    (htok : tokenEofOk env.cfg bmid = .ok (some term, b')) (hstop : typeStop term.type = true)
+    (htok : tokenEofOk env.cfg bmid = .ok (some term, b')) (hstop : typeEnd term.type = true)
     (hlt : term.type ≠ "<") (hdc : term.type ≠ "DBL_COLON") (hF : pairs.length + 2 ≤ F) :
     ∃ (w' : World) (t' : Tok),
       interp env (parseTypeStep F (core F (D + 1)) (some ct) operatorOk) w =
@@ -77,7 +102,7 @@ theorem parseType_plain (env : Env) (F D : Nat) (operatorOk : Bool) (ct : CTok) 
     unfold typeBody
     simp only [hty, hstart, ↓reduceIte, Option.isSome_none, Bool.false_eq_true, (by decide : ("NAME" = "operator") = False),
       decide_false, Bool.and_false, bind, interp_bind, core, coreStep, hpq, pure, interp, hi2]
-  have hbody2 := typeBody_stop env (k + 2) (core (k + 2) (D + 1)) operatorOk c2
+  have hbody2 := typeBody_end env (k + 2) (core (k + 2) (D + 1)) operatorOk c2
     (.mk (.name ct.value none :: pairs.map (fun p => .name p.2.value none)) none false) false false {} false w2
     (by rw [hty2, hty1]; exact hstop)
   unfold parseTypeStep
@@ -86,5 +111,19 @@ theorem parseType_plain (env : Env) (F D : Nat) (operatorOk : Bool) (ct : CTok) 
   simp only [bind, interp_bind, hbody1]
   rw [loopN]
   simp only [bind, interp_bind, hbody2, pure, interp, hi3]
+
+theorem typeStop_end {ty : String} (h : typeStop ty = true) : typeEnd ty = true := by
+  unfold typeEnd; rw [h]; rfl
+
+/-- `_parse_type(None, …)` reads its first token itself -/
+theorem parseTypeStep_none (env : Env) (F : Nat) (rec : Core) (operatorOk : Bool) (w : World) :
+    interp env (parseTypeStep F rec none operatorOk) w =
+      match interp env P.token w with
+      | (w1, .ok c) => interp env (parseTypeStep F rec (some c) operatorOk) w1
+      | (w1, .error e) => (w1, .error e) := by
+  unfold parseTypeStep
+  simp only [bind, interp_bind, pure, interp]
+  cases interp env P.token w with
+  | mk w1 r => cases r <;> rfl
 
 end Cxx
